@@ -2,7 +2,7 @@
    non-interference, containment of bad answers. *)
 From Coq Require Import ZArith List Bool Lia Arith FinFun.
 From Common Require Import Res.
-From Routing Require Import Model Proofs_Tables Proofs_Group Proofs_Merge.
+From Routing Require Import Model Scheme Obs Spec Proofs_Tables Proofs_Group Proofs_Merge.
 Import ListNotations.
 Open Scope Z_scope.
 
@@ -42,17 +42,6 @@ Lemma own_owns P T b u : mk_backends P = Ok T ->
   (own (t_lib T) b u = true <-> owns b_lib P b (u_scheme u)).
 Proof. intros H. rewrite own_true. now apply tget_owner_lib. Qed.
 
-(* the calls made by lookup / get_images, characterised without reference to the tables:
-   sound (only owners are asked, with exactly their URIs, in request order), complete (every
-   owner of a requested URI is asked), and at most one call per backend *)
-Definition routed_exactly (P : list backend) (T : tables) (mth : meth) (us : list uri) (log : list call) : Prop :=
-  (forall w m a, In (w, m, a) log ->
-     exists b, w = Bk b /\ m = mth /\ a = AUris (filter (own (t_lib T) b) us) /\
-               filter (own (t_lib T) b) us <> [] /\
-               forall u, In u (filter (own (t_lib T) b) us) <-> In u us /\ owns b_lib P b (u_scheme u)) /\
-  (forall u b, In u us -> owns b_lib P b (u_scheme u) ->
-     In (Bk b, mth, AUris (filter (own (t_lib T) b) us)) log) /\
-  NoDup (map (fun c : call => fst (fst c)) log).
 
 Lemma merge_routing f upd (Hg : upd_get_spec f upd) (Hk : upd_keys_spec upd) mth c P T us log out :
   mk_backends P = Ok T ->
@@ -96,15 +85,7 @@ Qed.
 Definition lookup_unknown_empty := merge_unknown_empty lookup_f lookup_upd lookup_upd_get lookup_upd_keys MLookupMany CTrack.
 Definition images_unknown_empty := merge_unknown_empty images_f images_upd images_upd_get images_upd_keys MGetImages CImage.
 
-(* ------------------------------------------------------------------ T4 non-interference *)
 
-Definition same_shape (b b' : backend) : Prop :=
-  b_schemes b = b_schemes b' /\ b_info_ok b = b_info_ok b' /\ b_lib b = b_lib b' /\
-  b_browse b = b_browse b' /\ b_playback b = b_playback b' /\ b_playlists b = b_playlists b'.
-
-(* P and P' are the same population except for the answers of backend number j *)
-Definition differ_only_at (j : nat) (P P' : list backend) : Prop :=
-  Forall2 same_shape P P' /\ forall i, i <> j -> nth_error P i = nth_error P' i.
 
 Lemma add_schemes_shape i b b' ss seen T :
   same_shape b b' -> add_schemes i b ss seen T = add_schemes i b' ss seen T.
@@ -167,10 +148,6 @@ Definition images_noninterference := merge_noninterference images_f images_upd i
 
 (* ------------------------------------------------------------------ T5 bad answers contribute nothing *)
 
-(* validation of a whole answer: a dict whose keys were asked for and whose values are
-   sequences of the expected class *)
-Definition acceptable (c : cls) (asked : list uri) (r : resp) : bool :=
-  match r with RMap items => forallb (item_ok c asked) items | _ => false end.
 
 Lemma good_items_unacceptable mth c P b l :
   acceptable c l (ans P b mth (AUris l)) = false -> good_items mth c P (b, l) = [].
